@@ -8,6 +8,17 @@
 //!      system: a newly created file has mode 0600; a complete valid file is restored exactly; a strict
 //!      prefix of one (a crash point of truncate-then-write) gives fresh keys; the loading closure never
 //!      panics (the workspace builds with panic = "abort", in the test build tokio would swallow it).
+//!   startfs p=0 h= umask=<022|077> layout=<plain|missing1|missing2|dir|empty|file644> [b=<file> mode=<octal>] key=<read back>
+//!       -> `<loaded|fresh> fs=<created|overwritten|nofile> mode=<octal|-> dirs=<created dirs with modes|-> body=<stored file, time word dropped|->`
+//!      the key-storage-path lies in an existing directory (plain), in a not-yet-existing sub-directory one or
+//!      two levels deep, IS an existing directory, is an existing empty file, or an existing key file with mode
+//!      0644 (the documented "warn only" case).  The daemon runs in a CHILD process (this test binary re-executed
+//!      through `sh -c 'umask NNN; exec ...'`: ntpd forbids unsafe code, so umask(2) cannot be called in
+//!      process) with the process umask forced to 022 and to 077.  Afterwards the harness walks the directory
+//!      tree: every file the run CREATED must be rw------- (oracle clause `mode`); an existing file keeps its
+//!      mode (not newly created: not judged); created directories are reported in the observation only.
+//!      Compared with the model (`startupAt`, `storeOutcome`): on the unmodified code a missing parent directory
+//!      or a directory at the path makes the store fail with a warning — no file, no directory is created.
 //!   race h= reads=<k>   -> ok
 //!      the daemon's storing thread rewrites the file in a tight loop (rotation interval 0) while the
 //!      harness reads it concurrently: every snapshot either fails to load or is a complete key file
@@ -93,6 +104,169 @@ fn work_dir(run: &Run, tag: &str) -> std::path::PathBuf {
     d
 }
 
+
+const TEST_PATH: &str = "daemon::nts_key_provider::verif_daemon_nts_key_provider::kp::entry";
+
+/// child mode (VERIF_STREAM=c27_spawn_child): run the real `spawn` once for KP_PATH under the umask the parent
+/// set through the shell, wait for the first store attempt, report panics, exit.
+fn child_main() {
+    count_panics();
+    let path = std::env::var("KP_PATH").expect("KP_PATH");
+    let h: usize = std::env::var("KP_H").ok().and_then(|v| v.parse().ok()).unwrap_or(0);
+    let result = std::env::var("KP_RESULT").expect("KP_RESULT");
+    let config = KeysetConfig {
+        stale_key_count: h,
+        key_rotation_interval: 4_000_000_000,
+        key_storage_path: Some(path),
+    };
+    let rt = tokio::runtime::Builder::new_current_thread().enable_all().build().unwrap();
+    let changed = rt.block_on(async {
+        let mut rx = spawn(config).await;
+        // the storing thread publishes right after its first store attempt (successful or not)
+        tokio::time::timeout(std::time::Duration::from_secs(30), rx.changed()).await.is_ok()
+    });
+    rt.shutdown_background();
+    std::fs::write(&result, format!("panics={} changed={}", PANICS.load(Ordering::SeqCst), changed as u8)).expect("write result");
+}
+
+/// (relative path, is_dir, mode) of everything below `root`, sorted
+fn walk(root: &std::path::Path) -> Vec<(String, bool, u32)> {
+    fn go(root: &std::path::Path, d: &std::path::Path, out: &mut Vec<(String, bool, u32)>) {
+        if let Ok(rd) = std::fs::read_dir(d) {
+            for e in rd.flatten() {
+                let p = e.path();
+                if let Ok(m) = std::fs::symlink_metadata(&p) {
+                    let rel = p.strip_prefix(root).unwrap().to_string_lossy().into_owned();
+                    out.push((rel, m.is_dir(), m.permissions().mode() & 0o7777));
+                    if m.is_dir() {
+                        go(root, &p, out);
+                    }
+                }
+            }
+        }
+    }
+    let mut out = vec![];
+    go(root, root, &mut out);
+    out.sort();
+    out
+}
+
+fn set_mode(p: &std::path::Path, mode: u32) {
+    std::fs::set_permissions(p, std::fs::Permissions::from_mode(mode)).expect("chmod");
+}
+
+fn exec_startfs(op: &str, w: &[&str], k: usize, run: &mut Run) {
+    let h = num(w, "h").unwrap_or(0);
+    let umask = kv(w, "umask").unwrap_or("022").to_string();
+    let layout = kv(w, "layout").unwrap_or("plain").to_string();
+    if !["022", "077"].contains(&umask.as_str()) {
+        run.end_op("bad-op");
+        return;
+    }
+    let base = work_dir(run, &format!("{}-fs{}", std::process::id(), k));
+    let root = base.join("root");
+    std::fs::create_dir_all(&root).expect("root");
+    set_mode(&root, 0o755);
+    let input = if kv(w, "b").is_some() { file_of(w) } else { vec![] };
+    let path = match layout.as_str() {
+        "plain" => root.join("keys.dat"),
+        "missing1" => root.join("state").join("keys.dat"),
+        "missing2" => root.join("var").join("ntpd").join("keys.dat"),
+        "dir" => {
+            let p = root.join("keys.dat");
+            std::fs::create_dir(&p).expect("mkdir");
+            set_mode(&p, 0o755);
+            p
+        }
+        "empty" => {
+            let p = root.join("keys.dat");
+            std::fs::write(&p, b"").expect("write");
+            set_mode(&p, 0o600);
+            p
+        }
+        "file644" => {
+            let p = root.join("keys.dat");
+            std::fs::write(&p, &input).expect("write");
+            set_mode(&p, 0o644);
+            p
+        }
+        _ => {
+            run.end_op("bad-op");
+            return;
+        }
+    };
+    let before = walk(&root);
+    let result = base.join("result.txt");
+    let exe = std::env::current_exe().expect("current_exe");
+    let out = std::process::Command::new("sh")
+        .arg("-c")
+        .arg(format!("umask {}; exec \"$0\" \"$@\"", umask))
+        .arg(&exe)
+        .args(["--exact", TEST_PATH, "--nocapture", "--test-threads", "1"])
+        .env("VERIF_STREAM", "c27_spawn_child")
+        .env("KP_PATH", &path)
+        .env("KP_H", h.to_string())
+        .env("KP_RESULT", &result)
+        .output()
+        .expect("run child");
+    let res = std::fs::read_to_string(&result).unwrap_or_default();
+    if !res.contains("changed=1") {
+        panic!("child did not finish its first store attempt: {:?} {}", res, String::from_utf8_lossy(&out.stderr));
+    }
+    let panicked = !res.contains("panics=0");
+    let after = walk(&root);
+    let created: Vec<&(String, bool, u32)> = after.iter().filter(|a| !before.iter().any(|b| b.0 == a.0)).collect();
+    let created_dirs: Vec<String> = created.iter().filter(|c| c.1).map(|c| format!("{}:{:o}", c.0.replace('/', "+"), c.2)).collect();
+    // ---- the property on the file system: every NEWLY CREATED file is rw------- (whatever the umask)
+    for c in created.iter().filter(|c| !c.1) {
+        if c.2 & 0o077 != 0 || c.2 & 0o600 != 0o600 {
+            run.oracle_fail(
+                "mode",
+                &format!("mode={:o} umask={} layout={}", c.2, umask, layout),
+                &format!("newly created key file {} has mode {:o}, not rw-------", c.0, c.2),
+            );
+        }
+    }
+    if panicked {
+        run.oracle_fail("abort_on_load", "", "the loading closure panicked (panic = \"abort\" in the workspace profiles)");
+    }
+    let rel = path.strip_prefix(&root).unwrap().to_string_lossy().into_owned();
+    let file_now = after.iter().find(|a| a.0 == rel && !a.1);
+    let existed = before.iter().any(|b| b.0 == rel && !b.1);
+    let (fs, mode, body, loaded) = match file_now {
+        Some(f) => {
+            let bytes = std::fs::read(&path).unwrap_or_default();
+            let body = if bytes.len() >= 8 { bytes[8..].to_vec() } else { vec![] };
+            let in_len = if input.len() >= 20 { u32::from_be_bytes(input[16..20].try_into().unwrap()) as usize } else { 0 };
+            let loaded = existed && in_len > 0 && input.len() >= 20 + 64 * in_len && body[..] == input[8..20 + 64 * in_len];
+            (if existed { "overwritten" } else { "created" }, format!("{:o}", f.2), body, loaded)
+        }
+        None => ("nofile", "-".to_string(), vec![], false),
+    };
+    // restart clause: a complete valid existing file is restored
+    if layout == "file644" && complete_valid(&input) && !loaded {
+        run.oracle_fail("restart_lost_keys", "", "a complete valid key file was not restored");
+    }
+    run.hit(&format!("fs-{}-{}", layout, fs));
+    run.hit(&format!("umask-{}", umask));
+    run.nontrivial(&format!("fs{}{}{}", layout, umask, fs));
+    let key = if loaded || body.len() < 76 { "-".to_string() } else { hex(&body[12..76]) };
+    let obs = if panicked {
+        "abort".to_string()
+    } else {
+        format!(
+            "{} fs={} mode={} dirs={} body={}",
+            if loaded { "loaded" } else { "fresh" },
+            fs,
+            mode,
+            common::comma_list(&created_dirs),
+            hex(&body)
+        )
+    };
+    let _ = std::fs::remove_dir_all(&base);
+    run.end_op_as(&format!("{} key={}", strip(op, &["key"]), key), &obs);
+}
+
 fn exec_case(ops: &[String], run: &mut Run) {
     count_panics();
     for (k, op) in ops.iter().enumerate() {
@@ -167,6 +341,7 @@ fn exec_case(ops: &[String], run: &mut Run) {
                 let _ = std::fs::remove_dir_all(&dir);
                 run.end_op_as(&format!("{} key={}", strip(op, &["key"]), key), &obs);
             }
+            Some("startfs") => exec_startfs(op, &w, k, run),
             Some("race") => {
                 let h = num(&w, "h").unwrap_or(1) as usize;
                 let reads = num(&w, "reads").unwrap_or(100);
@@ -178,7 +353,7 @@ fn exec_case(ops: &[String], run: &mut Run) {
                     key_storage_path: Some(path.to_string_lossy().into_owned()),
                 };
                 let rt = tokio::runtime::Builder::new_current_thread().enable_all().build().unwrap();
-                let (mut ok, mut err, mut partial) = (0u64, 0u64, 0u64);
+                let (mut ok, mut err, mut partial, mut torn) = (0u64, 0u64, 0u64, 0u64);
                 let mut bad: Option<String> = None;
                 rt.block_on(async {
                     let rx = spawn(config).await;
@@ -189,8 +364,14 @@ fn exec_case(ops: &[String], run: &mut Run) {
                                 ok += 1;
                                 let len = u32::from_be_bytes(snap[16..20].try_into().unwrap()) as usize;
                                 let prim = u32::from_be_bytes(snap[12..16].try_into().unwrap()) as usize;
-                                if snap.len() != 20 + 64 * len || prim + 1 != len || len > h + 1 {
+                                // A snapshot read WHILE the file is being rewritten can be torn (old bytes up to
+                                // the reader's offset, new bytes after it) - that is not a crash state, so only
+                                // what must hold of ANY loaded file is judged: usable (primary < len, all keys
+                                // present).  Header/size combinations a crash prefix could not show are counted.
+                                if prim >= len || snap.len() < 20 + 64 * len {
                                     bad = Some(format!("snapshot of {} bytes loaded: len={} prim={}", snap.len(), len, prim));
+                                } else if snap.len() != 20 + 64 * len || prim + 1 != len || len > h + 1 {
+                                    torn += 1;
                                 }
                             }
                             Err(_) => {
@@ -219,6 +400,9 @@ fn exec_case(ops: &[String], run: &mut Run) {
                 if partial > 0 {
                     run.hit("race-partial-seen");
                 }
+                if torn > 0 {
+                    run.hit("race-torn-read");
+                }
                 run.nontrivial(&format!("race{}", h));
                 run.end_op("ok");
             }
@@ -242,6 +426,16 @@ fn gen_file(rng: &mut Rng, nkeys: usize) -> Vec<u8> {
     b
 }
 
+fn gen_startfs(h: u64, umask: &str, layout: &str, file_hex: &str) -> String {
+    if layout == "file644" {
+        format!("startfs p=0 h={} umask={} layout={} b={} mode=644", h, umask, layout, file_hex)
+    } else if layout == "empty" {
+        format!("startfs p=0 h={} umask={} layout={} mode=600", h, umask, layout)
+    } else {
+        format!("startfs p=0 h={} umask={} layout={}", h, umask, layout)
+    }
+}
+
 fn gen_case(rng: &mut Rng, idx: u64, _run: &Run) -> Vec<String> {
     let h = rng.below(6);
     let nkeys = rng.usize(1, (h as usize) + 1);
@@ -256,7 +450,14 @@ fn gen_case(rng: &mut Rng, idx: u64, _run: &Run) -> Vec<String> {
         2 => ops.push(format!("start p=0 h={} b={} time=9223372036854775808", h, fh)),
         3 => ops.push("start p=0 h=2 nofile=1".to_string()),
         4 => ops.push("race h=2 reads=300".to_string()),
-        _ => match rng.below(10) {
+        // key-storage-path layouts x umask (022 and 077), all of them first
+        5..=16 => {
+            let layouts = ["plain", "missing1", "missing2", "dir", "empty", "file644"];
+            let layout = layouts[((idx - 5) / 2) as usize];
+            let umask = if (idx - 5) % 2 == 0 { "022" } else { "077" };
+            ops.push(gen_startfs(h, umask, layout, &fh));
+        }
+        _ => match rng.below(13) {
             0 => ops.push(format!("start p=0 h={} nofile=1", h)),
             1 | 2 => ops.push(format!("start p=0 h={} b={}", h, fh)),
             3 | 4 | 5 => {
@@ -281,7 +482,12 @@ fn gen_case(rng: &mut Rng, idx: u64, _run: &Run) -> Vec<String> {
                 ops.push(format!("start p=0 h={} b={} i={} x={}", h, fh, i, 1 + rng.below(255)));
             }
             8 => ops.push(format!("start p=0 h={} b={} time={}", h, fh, rng.pick(&[1u64 << 63, u64::MAX, (1 << 63) + 12345]))),
-            _ => ops.push(format!("race h={} reads={}", h, 100 + rng.below(200))),
+            9 => ops.push(format!("race h={} reads={}", h, 100 + rng.below(200))),
+            _ => {
+                let layout = *rng.pick(&["plain", "missing1", "missing2", "dir", "empty", "file644", "missing1", "plain"]);
+                let umask = *rng.pick(&["022", "077"]);
+                ops.push(gen_startfs(h, umask, layout, &fh));
+            }
         },
     }
     ops
@@ -291,9 +497,10 @@ fn gen_case(rng: &mut Rng, idx: u64, _run: &Run) -> Vec<String> {
 fn entry() {
     let stream = std::env::var("VERIF_STREAM").unwrap_or_default();
     match stream.as_str() {
+        "c27_spawn_child" => child_main(),
         "c27_spawn" => common::drive(
             "c27_spawn",
-            "real nts_key_provider::spawn in a temp dir: no file / complete file / every kind of strict prefix / corrupted header words / flipped bytes; the file the daemon stores next is compared with the model's startup+store; mode 0600 of a new file; concurrent readers of a tight store loop; non-trivial = every case; distinct by outcome and size",
+            "real nts_key_provider::spawn in a temp dir: no file / complete file / every kind of strict prefix / corrupted header words / flipped bytes; the file the daemon stores next is compared with the model's startup+store; mode 0600 of a new file; key-storage-path in an existing dir / a missing sub-directory (1 and 2 levels) / being a directory / an existing empty file / an existing 0644 key file, each in a child process with umask 022 and 077, every created file's mode checked; concurrent readers of a tight store loop; non-trivial = every case; distinct by outcome and size",
             gen_case,
             exec_case,
         ),
